@@ -256,15 +256,16 @@ def one_from_words(acc, kind, desc, ref, length, max_states):
             return
 
 
-def t_from_file(acc, length, shard, nshard):
+def t_from_file(acc, length, shard, nshard, only_ref=None):
     """check_*_language_from_file: the reference is a DFA file written by oracle code."""
     import gambatools.notebook as nb
     tmp = tempfile.mkdtemp(prefix='gv_c12_')
     try:
         refs = [s for _, s in spaces.dfas(2, 2)][::3]
         for ri, rs in enumerate(refs):
-            if ri % nshard != shard:
+            if ri % nshard != shard or (only_ref is not None and ri != only_ref):
                 continue
+            rpf = {'fn': 'mc.props.c12:t_from_file', 'mode': 'plain', 'params': {'length': length, 'shard': shard, 'nshard': nshard, 'only_ref': ri}}
             Q, Sg, d, q0, F = spaces.dfa_parts(rs, 'r')
             R = fa.from_dfa_parts(Q, Sg, d, q0, F)
             rlang = fa.language(R, length)
@@ -281,7 +282,7 @@ def t_from_file(acc, length, shard, nshard):
                     if len(alang ^ rlang) > 2 and (i + ri) % 17:
                         continue
                     inst = {'checker': checker.__name__, 'answer': text, 'reference_dfa': dfa_text(Q, Sg, d, q0, F), 'length': length}
-                    ok, res = core.lib_call(acc, checker.__name__, inst, run_checker, checker, text, path, length)
+                    ok, res = core.lib_call(acc, checker.__name__, inst, run_checker, checker, text, path, length, repro=rpf)
                     acc.transitions += 1
                     if not ok:
                         continue
@@ -289,9 +290,9 @@ def t_from_file(acc, length, shard, nshard):
                     acc.validated += 1
                     okv, lines = res
                     if okv and alang != rlang:
-                        acc.viol(checker.__name__, 'OK although the answer language differs from the reference file up to the length bound', inst, observed=sorted(alang ^ rlang)[:4])
+                        acc.viol(checker.__name__, 'OK although the answer language differs from the reference file up to the length bound', inst, repro=rpf, observed=sorted(alang ^ rlang)[:4])
                     elif not okv:
-                        check_feedback_word(acc, checker.__name__, inst, None, lines, alang, rlang, minimal=True)
+                        check_feedback_word(acc, checker.__name__, inst, rpf, lines, alang, rlang, minimal=True)
             acc.states += 1
     finally:
         import shutil
@@ -340,10 +341,11 @@ def t_accepts_rejects(acc, shard, nshard):
                     calls.append(('check_automaton_accepts_rejects', nb.check_automaton_accepts_rejects, (X, a_s, r_s), good))
                     if kind == 'dfa':
                         calls.append(('check_dfa_accepts_rejects', nb.check_dfa_accepts_rejects, (text, a_s, r_s), good))
+                rpa = {'fn': 'mc.props.c12:t_accepts_rejects', 'mode': 'plain', 'params': {'shard': shard, 'nshard': nshard}}
                 for name, f, args, crit in calls:
                     if kind == 'dfa' and any(c not in desc_sigma(desc) for w in al + rl for c in w):
                         continue       # words outside the DFA's alphabet: the exercise never lists them
-                    ok, res = core.lib_call(acc, name, inst, run_checker, f, *args)
+                    ok, res = core.lib_call(acc, name, inst, run_checker, f, *args, repro=rpa)
                     acc.transitions += 1
                     if not ok:
                         continue
@@ -352,7 +354,7 @@ def t_accepts_rejects(acc, shard, nshard):
                     if res[0]:
                         acc.nontrivial += 1 if crit else 0
                         if not crit:
-                            acc.viol(name, 'OK although a listed word is classified wrongly by the answer', inst, observed=sorted(lang))
+                            acc.viol(name, 'OK although a listed word is classified wrongly by the answer', inst, repro=rpa, observed=sorted(lang))
 
 
 def desc_sigma(desc):
